@@ -14,7 +14,7 @@
 //
 //	O set r|w <ms> | setpast r|w | both <ms> | clear r|w | clearboth | write full|short|err | flush full|short|err
 //	O close | wait                                   (virt)
-//	O conn | req small|big | wsup | msg | wait       (http / ws)
+//	O conn | req small|big | wsup | msg | ping | wait       (http / ws)
 //	Q g=<ms>                                         final observation, issued after every deadline + g
 //
 // exec annotates each op with at=/at2= (µs since the case started, before/after the call) and st=/post= (the conn
@@ -49,6 +49,7 @@ import (
 	"strconv"
 	"strings"
 	"sync"
+	"sync/atomic"
 	"syscall"
 	"time"
 
@@ -108,6 +109,8 @@ func gen(g *lp.Gen) {
 		switch {
 		case i%8 == 5:
 			genDial(g, i)
+		case g.Tier != "thorough" && i%16 == 13:
+			genWS(g, i) // WS keep-alive with heartbeats also in the quick tier
 		case g.Tier == "thorough" && i%8 == 6:
 			genHTTP(g, i)
 		case g.Tier == "thorough" && i%8 == 7:
@@ -279,10 +282,18 @@ func genWS(g *lp.Gen, id int) {
 	t += g.PickInt(5, 20, 40)
 	g.P("O wsup t=%d", t)
 	last := t + ka
-	n := g.Intn(4)
+	n := g.Intn(5)
+	// traffic of one kind only in half of the cases: heartbeat-only connections (pings only / unsolicited pongs only)
+	// are not silent and must stay open
+	only := g.Pick("", "", "ping", "pong")
 	for k := 0; k < n; k++ {
-		t += ka * g.PickInt(2, 5, 8) / 10
-		g.P("O msg t=%d", t)
+		t += ka * g.PickInt(2, 3, 5, 8) / 10
+		hb := g.Pick("msg", "ping", "pong")
+		if only != "" {
+			hb = only
+		}
+		// data messages and heartbeats (ping, answered by the default pong; unsolicited pong) all renew the keep-alive
+		g.P("O %s t=%d", hb, t)
 		last = t + ka
 	}
 	g.P("Q g=%d t=%d", gBound(g)+200, last+gBound(g)+200)
@@ -337,6 +348,26 @@ func classify(err error) string {
 type obs struct {
 	kind string
 	tc   int64
+	hs   string // rt=<0|1> wt=<0|1> bl=<0|1>: timer handles and backlog read under the same lock ("" if unknown)
+}
+
+func handles(st nbio.VerifConnState) string {
+	b := func(x bool) int {
+		if x {
+			return 1
+		}
+		return 0
+	}
+	return fmt.Sprintf("rt=%d wt=%d bl=%d", b(st.RTimer), b(st.WTimer), b(!st.Closed && len(st.Items) > 0))
+}
+
+// hsOf: the timer handles and the backlog are compared with the model for the cases whose write path the model
+// follows exactly (virtual descriptors: scripted kernel answers)
+func hsOf(kind string, o obs) string {
+	if kind != "virt" || o.hs == "" {
+		return ""
+	}
+	return " " + o.hs
 }
 
 func (o obs) ann() string {
@@ -388,24 +419,25 @@ func (e *env) observe() obs {
 	if c == nil {
 		select {
 		case <-e.rec.ch: // a dialing conn the harness has not been handed yet, already closed
-			return obs{e.rec.kind, e.rec.tc}
+			return obs{kind: e.rec.kind, tc: e.rec.tc}
 		default:
 		}
-		return obs{"open", 0}
+		return obs{kind: "open"}
 	}
-	if !c.VerifState().Closed {
+	st := c.VerifState()
+	if !st.Closed {
 		select {
 		case <-e.rec.ch: // notification without the flag: cannot happen for nbio.Conn, but never block on it
-			return obs{e.rec.kind, e.rec.tc}
+			return obs{e.rec.kind, e.rec.tc, handles(st)}
 		default:
 		}
-		return obs{"open", 0}
+		return obs{"open", 0, handles(st)}
 	}
 	select {
 	case <-e.rec.ch:
-		return obs{e.rec.kind, e.rec.tc}
+		return obs{e.rec.kind, e.rec.tc, handles(st)}
 	case <-time.After(3 * time.Second):
-		return obs{"lost", e.us()}
+		return obs{"lost", e.us(), handles(st)}
 	}
 }
 
@@ -509,6 +541,25 @@ func stripAnn(ws []string) []string {
 	return o
 }
 
+// ---- scheduling-lag monitor: on an overloaded machine timers (the implementation's and the harness's) run late; the
+// "fires within a generous bound" side of the check scales its bound with the lag actually observed, so that load can
+// delay a verdict but never turn into a false c16-missed
+var lagRecentUs int64
+
+func lagMonitor() {
+	for {
+		t0 := time.Now()
+		time.Sleep(2 * time.Millisecond)
+		lag := int64(time.Since(t0)/time.Microsecond) - 2000
+		old := atomic.LoadInt64(&lagRecentUs)
+		dec := old - old/64
+		if lag > dec {
+			dec = lag
+		}
+		atomic.StoreInt64(&lagRecentUs, dec)
+	}
+}
+
 func (e *env) sleepUntil(ms int) {
 	d := time.Duration(ms)*time.Millisecond - time.Since(e.start)
 	if d > 0 {
@@ -552,6 +603,14 @@ func runCase(cr *caseRun) {
 		e.sleepUntil(atoi(field(ws, "t")))
 		if ws[0] == "Q" {
 			g := int64(atoi(field(ws, "g"))) * 1000
+			if l := 40 * atomic.LoadInt64(&lagRecentUs); l > g {
+				g = (l/1000 + 1) * 1000 // overloaded machine: a more generous bound, passed on to the model
+				for i, w := range ws {
+					if strings.HasPrefix(w, "g=") {
+						ws[i] = fmt.Sprintf("g=%d", g/1000)
+					}
+				}
+			}
 			// never observe before every deadline in force had its generous bound
 			for d := 0; d < 2; d++ {
 				if e.tr.hi[d] >= 0 {
@@ -573,14 +632,14 @@ func runCase(cr *caseRun) {
 					}
 				}
 			}
-			fmt.Fprintf(&cr.out, "> %s at=%d st=%s\nR st=%s overdue=-\n", strings.Join(ws, " "), at, st.ann(), st.kind)
+			fmt.Fprintf(&cr.out, "> %s at=%d st=%s\nR st=%s overdue=-%s\n", strings.Join(ws, " "), at, st.ann(), st.kind, hsOf(kind, st))
 			shape += "|Q:" + st.kind
 			continue
 		}
 		st := e.observe()
 		e.judge(st)
 		// did a deadline in force exist and was it still ahead? (non-triviality: renew/clear before expiry)
-		if st.kind == "open" && (ws[1] == "set" || ws[1] == "clear" || ws[1] == "both" || ws[1] == "clearboth" || ws[1] == "msg" || ws[1] == "req") {
+		if st.kind == "open" && (ws[1] == "set" || ws[1] == "clear" || ws[1] == "both" || ws[1] == "clearboth" || ws[1] == "msg" || ws[1] == "ping" || ws[1] == "pong" || ws[1] == "req") {
 			now := e.us()
 			for d := 0; d < 2; d++ {
 				if e.tr.lo[d] > now {
@@ -598,7 +657,7 @@ func runCase(cr *caseRun) {
 		if ws[1] == "dial" {
 			extra = " res=" + e.dialRes
 		}
-		fmt.Fprintf(&cr.out, "> %s%s at=%d at2=%d st=%s post=%s\nR st=%s post=%s\n", strings.Join(ws, " "), extra, t0, t1, st.ann(), post.ann(), st.kind, post.kind)
+		fmt.Fprintf(&cr.out, "> %s%s at=%d at2=%d st=%s post=%s\nR st=%s post=%s%s\n", strings.Join(ws, " "), extra, t0, t1, st.ann(), post.ann(), st.kind, post.kind, hsOf(kind, post))
 		shape += "|" + strings.Join(ws[1:len(ws)-1], ":") + ">" + st.kind + ">" + post.kind
 		cr.stats["op:"+ws[1]]++
 	}
@@ -1058,6 +1117,35 @@ func setupE2E(e *env, kind string, kaMs, wtMs int) (func(ws []string), func()) {
 			if c := e.nbc(); c != nil && !c.VerifState().Closed {
 				tr.set(0, t0+kaUs, e.us()+kaUs, t0)
 			}
+		case "ping":
+			if cli == nil {
+				return
+			}
+			_ = cli.SetDeadline(time.Now().Add(5 * time.Second))
+			if _, err := cli.Write([]byte{0x89, 0x81, 1, 2, 3, 4, 'p' ^ 1}); err != nil {
+				return
+			}
+			pong := make([]byte, 3)
+			if _, err := io.ReadFull(br, pong); err != nil {
+				return
+			}
+			time.Sleep(2 * time.Millisecond) // the renewal runs after the handler returned
+			if c := e.nbc(); c != nil && !c.VerifState().Closed {
+				tr.set(0, t0+kaUs, e.us()+kaUs, t0)
+			}
+		case "pong":
+			if cli == nil {
+				return
+			}
+			_ = cli.SetDeadline(time.Now().Add(5 * time.Second))
+			if _, err := cli.Write([]byte{0x8a, 0x81, 1, 2, 3, 4, 'q' ^ 1}); err != nil {
+				return
+			}
+			// nothing comes back for an unsolicited pong: give the poller and the handler a moment
+			time.Sleep(4 * time.Millisecond)
+			if c := e.nbc(); c != nil && !c.VerifState().Closed {
+				tr.set(0, t0+kaUs, e.us()+kaUs, t0)
+			}
 		case "wait":
 		}
 	}
@@ -1073,6 +1161,7 @@ func setupE2E(e *env, kind string, kaMs, wtMs int) (func(ws []string), func()) {
 }
 
 func exec(e *lp.Exec) {
+	go lagMonitor()
 	logging.SetLevel(logging.LevelNone)
 	vsys.VirtualAll = true
 	nbio.MaxOpenFiles = 19999
